@@ -47,3 +47,6 @@ package mcpserver
 //@   never_writes [C40.describeConfigsHandler.no_in_place_mutation] protocol.ClusterMetadata.*, protocol.MetadataTopic.*, protocol.MetadataPartition.*, protocol.MetadataBroker.*, metadatapb.ConsumerGroup.*, metadatapb.GroupMember.*, metadatapb.Assignment.*, metadatapb.TopicConfig.*
 //@   frame_only
 //@
+//@ func registerTools
+//@   direct_calls_only [C40.all_tools_registered_from_checked_factories] clusterStatusHandler, clusterMetricsHandler, listTopicsHandler, describeTopicsHandler, listGroupsHandler, describeGroupHandler, fetchOffsetsHandler, describeConfigsHandler
+//@   frame_only
